@@ -87,6 +87,7 @@ func c11Sch(a []string) string {
 		return "bad-op"
 	}
 	s := NewSched()
+	s.Families = []string{"origin."}
 	// updateSDPOrigin never waits on a real primitive: a segment that has not parked yet is merely slow
 	// (machine load), never "blocked"
 	s.BlockTimeout = 15 * time.Second
